@@ -327,6 +327,16 @@ def main(args) -> int:
         for r in ex.map(lambda s: run_mutant(s, runs, budget), specs):
             results.append(r)
             print(f"mutant {r['id']:40s} {r['property']}  {r['status']:14s} {r.get('wall_s', '')}  {'; '.join(r.get('signatures', []))[:160]}")
+    # second stage: survivors of the reduced batch get the full quick-tier batch (what ./check <ID> --tier quick runs)
+    full = int(os.environ.get("VERIF_MUTANT_FULL_RUNS", "2400"))
+    if runs < full:
+        by_id = {s_[0]: s_ for s_ in specs}
+        for i, r in enumerate(results):
+            if r["status"] == "survived":
+                r2 = run_mutant(by_id[r["id"]], full, budget)
+                r2["stage"] = f"second stage: {full} runs (first stage of {runs} runs found nothing)"
+                results[i] = r2
+                print(f"mutant {r2['id']:40s} {r2['property']}  {r2['status']:14s} {r2.get('wall_s', '')}  [{full} runs] {'; '.join(r2.get('signatures', []))[:120]}")
     killed = sum(r["status"] == "killed" for r in results)
     report = {"mutants": results, "killed": killed, "total": len(results), "wall_s": round(time.time() - t0, 1), "runs_per_mutant": runs}
     os.makedirs(os.path.join(VERIF_ROOT, "evidence"), exist_ok=True)
